@@ -33,9 +33,9 @@ BUDGET = {
     'thorough': dict(examples=2000, time_s=3300, shrink=True, shrink_cap_s=240),
 }
 
-SAMPLE_KINDS = ['ok_mef', 'ok_mef_wide', 'ok_rfi', 'ok_one', 'ok_float', 'ok_float2', 'missing', 'small', 'gf_neg', 'gf_big', 'gf_just_above', 'gf_just_below', 'bad_units', 'beads_failed',
+SAMPLE_KINDS = ['ok_mef', 'ok_mef_wide', 'ok_rfi', 'ok_one', 'ok_400', 'ok_float', 'ok_float2', 'missing', 'small', 'gf_neg', 'gf_big', 'gf_just_above', 'gf_just_below', 'bad_units', 'beads_failed',
                 'no_curve', 'other_instrument', 'other_instrument_lc', 'other_amp', 'other_volt', 'other_volt0', 'bad_units_sub']
-HEALTHY = ('ok_mef', 'ok_mef_wide', 'ok_rfi', 'ok_one', 'ok_float', 'ok_float2')
+HEALTHY = ('ok_mef', 'ok_mef_wide', 'ok_rfi', 'ok_one', 'ok_400', 'ok_float', 'ok_float2')
 BEAD_KINDS = ['ok', 'missing', 'small', 'gf_neg', 'gf_big', 'unequal_mef']
 
 _FIX = {}
@@ -56,6 +56,7 @@ def fixture(seed):
         'cells_b.fcs': dict(kind='cells', instrument='I1', seed=seed + 2, n=520, datatype='I'),
         'cells_f.fcs': dict(kind='cells', instrument='I1', seed=2 * seed + 3, n=560, datatype='F'),
         'cells_f2.fcs': dict(kind='cells', instrument='I1', seed=4 * seed + 41, n=610, datatype='F'),   # bit 1 clear: non-positive FL2 values -> a warning note
+        'cells_400.fcs': dict(kind='cells', instrument='I1', seed=seed + 13, n=400, datatype='I'),     # exactly the minimum
         'cells_small.fcs': dict(kind='cells', instrument='I1', seed=seed + 4, n=380, datatype='I'),
         'cells_volt.fcs': dict(kind='cells', instrument='I1', seed=seed + 5, n=500, datatype='I', volt=[500, 550, 999, 650]),
         'cells_volt0.fcs': dict(kind='cells', instrument='I1', seed=seed + 11, n=500, datatype='I', volt=[500, 550, 0, 650]),
@@ -83,6 +84,8 @@ def sample_row(kind, sid):
     r = dict(id=sid, instrument='I1', beads='B1', file='cells_a.fcs', gate_fraction=0.5, units={'FL1-H': 'MEF', 'FL2-H': 'RFI'})
     if kind == 'ok_rfi':
         r.update(file='cells_b.fcs', units={'FL1-H': 'rfi', 'FL2-H': 'Channel'}, gate_fraction=0.85)
+    elif kind == 'ok_400':
+        r.update(file='cells_400.fcs', units={'FL1-H': 'RFI'}, beads=None, gate_fraction=0.9)
     elif kind == 'ok_one':
         # reports one channel only, of a file that has saturated events in the channel it does not report
         r.update(units={'FL2-H': 'RFI'}, beads=None)
